@@ -29,6 +29,22 @@ CHECKS = {
          "deterministic simulation: seeded mixed histories of checked operations (set, bit set/clear, block write, sanitise) with out-of-band storage corruption as injected fault; inductive constraint invariant evaluated on the real storage before/after every step",
          "After every checked operation: a register that satisfied its constraint before still does, always-fail registers are unchanged, refused operations leave the whole image unchanged, bit operations change exactly the requested bits; after corruption + sanitise violating/undecodable registers hold their default, others are unchanged, no register is touched.",
          "Trusts sim/regmodel.hpp. Sanitise judged only on tables the property names (no always-fail registers, valid defaults, writable areas).", "4.7"),
+ "C06": ("regpsim", "exploration",
+         "deterministic simulation: client and server RegP nodes on two simulated wires, scripted-verdict memory backend (all 12 codes) and ledger allocator; the order of send/serve operations is the seeded schedule (pipelining); reference decoder/encoder written from doc/regp.txt; exactly-once history oracle",
+         "Every served frame of a seeded session is judged: exactly one backend access with the request's address, block size and payload, exactly one reply octet-identical to the reference encoding of the prescribed response (echoed sequence number and address, ACK payload = backend image, error code with big-endian payload where the document gives one, WORD-SIZE-16 cleared), EWORDSIZE without access on mismatch, responses/meta ignored, nothing executed for frames that failed reception; both transports and word sizes.",
+         "Trusts the reference codec in sim/regpref.hpp (packed checksum reading, header CRC continuing over the payload-CRC word) and the backend/allocator stubs.", "4.8"),
+ "C07": ("regpsim", "fault_enumeration",
+         "deterministic simulation with fault enumeration: per seeded serial frame the whole corruption catalogue (single/double bit flips, bursts 2..16 in line order, first-header-word flips, truncations, extensions) is injected on the simulated line; plus a differential family of arbitrary octet sequences on both transports against the reference classifier",
+         "Per generated frame the catalogue is enumerated; each corrupted delivery must cause no backend access, no ACK, the error id and reply the reference classifier prescribes. The frame dimension and burst interior patterns are sampled. One recorded known finding (bursts straddling a checksum word, protocol layout).",
+         "Trusts sim/regpref.hpp; corruption is applied to frame octets before SLIP (wire-level damage is C12).", "4.8"),
+ "C08": ("regpsim", "exploration",
+         "deterministic simulation: every emit entry point on both transports and word sizes with a wire tap compared octet-for-octet against the reference encoder, then delivered to a peer node's receiver whose reported fields are compared with the intended ones; session sequence numbers across wrap-around",
+         "Seeded exploration of emitters x transports x memory word sizes x addresses/sizes/payloads (SLIP control octets, varint boundaries) x sequence start values; wire image and peer acceptance checked per frame.",
+         "Trusts sim/regpref.hpp.", "4.8"),
+ "C09": ("regpsim", "exploration",
+         "deterministic simulation: streams of framed segments with arbitrary content (valid, mutated, random, oversize, short, empty) under allocation-failure scripts, block sizes from sizeof(RPFrame)+1, channel errors mid-frame and truncated TCP frames; allocator ledger, ASan exact-size blocks, backend capacity probe, outcome rules",
+         "The documented loop recv; process; free is run over seeded streams with faults: every block released exactly once (also on channel errors), no access outside the block (ASan), backend never handed less room than the block it must fill, ERXOVERFLOW/ETXOVERFLOW/EBUSY/header-encoding outcomes as prescribed, step budget against hangs.",
+         "Trusts sim/regpref.hpp and the ledger; latitude for reads that fit the buffer size but not the block behind the header, for non-request early errors, and for blocks too small to hold a header.", "4.8"),
  "C10": ("pssim", "exploration",
          "deterministic simulation: persistent storage over a simulated medium (access log, region guard, bit rot), image + independent checksum reference model",
          "Seeded exploration of configurations (data size, placement, three checksum algorithms, auxiliary buffer sizes 0..N+1) x operation histories (store, partial store incl. overflow pairs, fetch, validate, reset, restart, bit rot) on a fault-free medium; every medium access is logged and region-checked, every result compared with an image model and independently computed checksums; step budget catches non-terminating chunk loops.",
@@ -61,7 +77,7 @@ NA = {
  "C16": "pure function of (state, octets); an independent bitwise CRC is only used as oracle inside other harnesses (DESIGN.md 4.9)",
  "C20": "pure function of the input text; allocation failure ends in _Exit(1) by design, so there is no fault path to inject and no stream/state/peer (DESIGN.md 4.9)",
 }
-PENDING = {k: "harness not built yet in this round (planned per DESIGN.md section 4); no claim is made until its check exists" for k in ["C06","C07","C08","C09"]}  # id -> reason, for properties whose harness is not built yet
+PENDING = {}  # id -> reason, for properties whose harness is not built yet
 
 def main():
     checks = []
